@@ -15,7 +15,7 @@ DF2 = pl.DataFrame({"x": ["1"], "y": ["2"]})
 
 def build(tier, seed):
     quick = tier == "quick"
-    T = 90 if quick else 600
+    T = 240 if quick else 600
     obs = []
     # O1: one inductive step from an ARBITRARY residual colour context
     for path, name in PATHS:
@@ -176,13 +176,13 @@ def mkh(kind):
     r = PageRenderer.__new__(PageRenderer)
     r.encoding_service = NS(encode_column_header=lambda text, hdr, w: ["HROW"] if text is not None else None)
     page = NS(is_first_page=first, data=minipl.Frame({"c%d" % j: ["x"] for j in range(ncol)}), table_attrs=NS(col_rel_width=[1.0] * ncol))
-    saved = rmod.pl
-    rmod.pl = minipl.pl
+    saved = minipl.substituted()
+    saved.__enter__()
     try:
         out1 = PageRenderer._render_column_headers(r, doc, page)
         out2 = PageRenderer._render_column_headers(r, doc, page)
     finally:
-        rmod.pl = saved
+        saved.__exit__()
     same = [h.model_dump() for h in hs] == before and out1 == out2
     return same and RTFDocumentService.calculate_additional_rows_per_page(NS.of(RTFDocumentService), doc) == reserved_before
 ''',
